@@ -21,7 +21,7 @@ import numpy as np
 PROP = "C13"
 LEVEL = "exploration"
 VARIANTS = ("omp", "serial", "asan", "tsan", "dbg")
-CASE_TIMEOUT = 900
+CASE_TIMEOUT = 1200
 CRASH_IS_VIOLATION = True
 CONTRACTS = True
 RULE = ("workload = cases of checks C01,C02,C04,C05,C06,C07,C08,C09,C10,C11,C12 (all kernels are reached through the public classes, never with hand-made raw "
